@@ -769,7 +769,14 @@ def wl_inverse(run, rng, idx):
     mon = run.monitor("inverse")
     kind = idx % 6
     t = float(rng.uniform(0.3, 2.5))
-    if kind <= 2:
+    if kind == 2:
+        # determinant -1 (orientation-reversing elements of O(2,1)): the inverse
+        # is promised there as a homomorphism up to sign (seeded change C17-r2-2:
+        # a sign rule derived from a d + b c = 2 a d - 1, true for det +1 only)
+        fam = "det-minus-one"
+        A = lr.rand_sl2(rng, (), 30.0) @ np.diag([1.0, -1.0])
+        B = lr.rand_sl2(rng, (), 30.0) @ (np.diag([1.0, -1.0]) if (idx // 6) % 2 else np.eye(2))
+    elif kind <= 1:
         A = lr.rand_sl2(rng, (), 50.0)
         B = lr.rand_sl2(rng, (), 50.0)
         fam = "generic"
